@@ -48,6 +48,7 @@ _LIB = ["harness/c13lib/c13_types.go", "harness/c13lib/c13_gen.go", "harness/c13
 _EXTRA = {"pkg/zzverifc13/zz_verif_" + os.path.basename(f): f for f in _LIB}
 _EXTRA["pkg/filters/proxy/zz_verif_c13_hook.go"] = "harness/proxy/zz_verif_c13_hook.go"
 _EXTRA["pkg/filters/builder/zz_verif_c13_hook.go"] = "harness/builder/zz_verif_c13_hook.go"
+_EXTRA["pkg/util/circuitbreaker/zz_verif_c13_hook.go"] = "harness/circuitbreaker/zz_verif_c13_hook.go"
 
 HARNESSES = [
     dict(name="pl", pkg="pkg/object/pipeline", files=["harness/pipeline/zz_verif_c13_test.go"],
